@@ -101,6 +101,21 @@ def junk_frames(uni, rnd, tier):
             [["EVENT", ev], ["EVENT", ev]], [r1, ["EVENT", ev], r1, ["EVENT", ev]], [r1, ["REQ", "jsub", None], r1],
             [["REQ", "jsub%d" % k, {"kinds": [1]}] for k in range(6)] + [["REQ", "jsub0", {"kinds": [7]}]], [["AUTH", ev], ["AUTH", ev]]]
     texts += [SEQ_SEP.join(J(f) for f in sq) for sq in seqs]
+    # the same hostile (correctly signed) event many times over, and a run of different ones: whatever a single such event
+    # costs the relay (a slot, a task, a lock, a queue entry) must not add up until later commands go unanswered
+    bursts = []
+    n = 0
+    for kind in (1, 5, 30000):
+        for tags in hostile_tags + [[["e", "this-is-not-an-id"]], [["expiration"]], [["e", ev["id"]], ["e", "zz"]]]:
+            n += 1
+            try:
+                bursts.append(["EVENT", C.mk_event("C", kind=kind, created_at=C.T0 + 500 + n, tags=tags, content="burst %d" % n)])
+            except Exception:
+                pass
+    reps = 6 if tier == "quick" else 12
+    chosen = bursts if tier != "quick" else [bursts[k] for k in sorted(rnd.sample(range(len(bursts)), 16))]
+    texts += [SEQ_SEP.join([J(f)] * reps) for f in chosen]
+    texts += [SEQ_SEP.join(J(f) for f in bursts[k:k + reps]) for k in range(0, len(bursts), reps)]
     return texts
 
 
